@@ -166,9 +166,19 @@ def check_rows(r, frame, Vfull, tol=1e-9):
         shape_c = tuple(len(r.grids[c]) for c in r.choices)
         flat = np.ravel_multi_index(tuple(idx), shape_c) if idx else np.zeros(n, int)
         qc = qq[np.arange(n), flat]
+        has_feasible = np.broadcast_to(feas, q.shape).reshape(n, -1).any(axis=1)
         for i in range(n):
             if not np.isfinite(best[i]):
-                skipped += 1
+                if has_feasible[i] and np.isneginf(best[i]):
+                    # every feasible choice has objective -inf: any FEASIBLE grid choice attains the maximum
+                    checked += 1
+                    fl = np.broadcast_to(feas, q.shape).reshape(n, -1)[i, flat[i]]
+                    if not fl:
+                        probs.append((t, i, "chosen-infeasible", f"state { {s: float(rows[s][i]) for s in r.states} } choice { {c: float(sub[c].values[i]) for c in r.choices} } (all feasible choices have objective -inf, the reported one is not feasible)"))
+                    if not (val[i] == best[i]):
+                        probs.append((t, i, "value-mismatch", f"value {val[i]!r} != max {best[i]!r}"))
+                else:
+                    skipped += 1
                 continue
             checked += 1
             sc = 1 + abs(best[i])
